@@ -47,6 +47,7 @@ class Gen:
         self.kinds: List[str] = []
         self.has_nonunitary_channel = False
         self.features = set()
+        self.channel_keys = set()
 
     # -- helpers --------------------------------------------------------------------------------------
     def qubits_only(self) -> List[cirq.Qid]:
@@ -288,8 +289,10 @@ class Gen:
             k0 = math.sqrt(1 - pr) * np.eye(2)
             k1 = math.sqrt(pr) * u
             key = self._pick(["k", "l"], "ch-key") if (self.keyed_channels and self.t.chance(1, 2, "ch-keyed?")) else None
-            if key is not None and key in self.key_dims:
-                key = None
+            if key is not None and (key in self.key_dims or key in self.channel_keys):
+                key = None      # a channel key is used once: repeated channel keys are not defined
+            if key is not None:
+                self.channel_keys.add(key)
             op = cirq.KrausChannel([k0, k1], key=key).on(q)
             bits = 1
             if key:
@@ -297,8 +300,10 @@ class Gen:
         elif kind == 8:
             u = self._unitary_matrix(2)
             key = self._pick(["k", "l"], "ch-key") if (self.keyed_channels and self.t.chance(1, 2, "ch-keyed?")) else None
-            if key is not None and key in self.key_dims:
+            if key is not None and (key in self.key_dims or key in self.channel_keys):
                 key = None
+            if key is not None:
+                self.channel_keys.add(key)
             op = cirq.MixedUnitaryChannel([(1 - pr, np.eye(2)), (pr, u)], key=key).on(q)
             bits = 1
             if key:
